@@ -81,6 +81,10 @@ def run(ctx):
     for comp in ("none", "gzip", "bzip2"):
         cases.append((2, "names", None, "\t", comp, b""))
         cases.append((3, "prefix", None, "\t", comp, b"a\n"))
+        cases.append((1, "prefix", None, "\t", comp, b"a\nb\n"))
+        cases.append((1, "prefix", "1", "\t", comp, b""))
+        cases.append((2, "prefix", None, "\t", comp, b"a\nb\nc\n"))
+        cases.append((10, "prefix", None, "\t", comp, b"a\nb\nc\n"))
         cases.append((11, "prefix", "1", "\t", comp, b"a\tx\na\ty\nb\n"))
         cases.append((2, "names", None, "\t", comp, b"first\nsecond\nlast line without newline"))
         cases.append((1, "names", None, "\t", comp, b"only"))
